@@ -8,6 +8,7 @@ import (
 	"context"
 	"errors"
 	"fmt"
+	peer "github.com/libp2p/go-libp2p-core/peer"
 	"os"
 	"sort"
 	"strconv"
@@ -32,7 +33,7 @@ const nShards = 12
 
 func TestMain(m *testing.M) {
 	R = ev.New("C02", "model_checking")
-	R.Rule("one evaluation = one history executed on real crdt replicas in a fresh bubble: (a) single replica: operations over 2 CIDs x batching configuration x age ticks x injected datastore failures; (b) 2-3 replicas: operations at any replica x link/unlink events x sync points; states = distinct canonical (visible pinset per replica, pending batch size, link state) observed at quiescent points; transitions = events applied; distinct_nontrivial = distinct (history shape, outcome) pairs")
+	R.Rule("one evaluation = one history executed on real crdt replicas in a fresh bubble: (a) single replica: operations over 2 CIDs x batching configuration x age ticks x injected datastore failures; (b) 2-3 replicas: operations at any replica x link/unlink events x sync points, fully meshed and trusting each other, or in a line where the two mutually trusting replicas only reach each other through a relay neither of them trusts; states = distinct canonical (visible pinset per replica, pending batch size, link state) observed at quiescent points; transitions = events applied; distinct_nontrivial = distinct (history shape, outcome) pairs")
 	R.Assume("datastore failures are injected as a failing block Put or a failing batch Commit of the datastore handed to crdt.New (no partial writes inside go-ds-crdt's own merge)")
 	R.Assume("for writes to one CID issued on different replicas between two sync points only agreement is required (the text does not say which concurrent write wins)")
 	ev.Main(m.Run, R)
@@ -406,10 +407,19 @@ func (e mev) String() string {
 	return e.Kind
 }
 
+// relayMode: three replicas in a line 0 - 1 - 2. Replicas 0 and 2 trust each
+// other only; replica 1 trusts everybody and nobody trusts it. Every update
+// between the two mutually trusting replicas arrives forwarded by a neighbour
+// the receiver does not trust.
+var relayMode bool
+
 func setLinks(mn mocknet.Mocknet, peers []*clus.CRDTPeer, up bool) {
 	for i := range peers {
 		for j := i + 1; j < len(peers); j++ {
 			a, b := peers[i].Host.ID(), peers[j].Host.ID()
+			if relayMode && j-i != 1 {
+				continue // never linked
+			}
 			if up {
 				mn.LinkPeers(a, b)
 				mn.ConnectPeers(a, b)
@@ -421,15 +431,24 @@ func setLinks(mn mocknet.Mocknet, peers []*clus.CRDTPeer, up bool) {
 	}
 }
 
-func runMulti(t *testing.T, n int, gossip bool, batching bool, evs []mev) (outcome string, viol []finding, states map[string]bool, trans int) {
+func runMulti(t *testing.T, n int, gossip bool, batching bool, relay bool, evs []mev) (outcome string, viol []finding, states map[string]bool, trans int) {
 	outcome = "ok"
 	states = map[string]bool{}
+	relayMode = relay
 	clus.Bubble(t, func(t *testing.T) {
 		ctx := context.Background()
 		mn, hosts := clus.NewMocknetUnconnected(ctx, 0, n)
+		if relay {
+			mn.UnlinkPeers(hosts[0].ID(), hosts[2].ID())
+		}
 		var peers []*clus.CRDTPeer
-		for _, h := range hosts {
+		for i, h := range hosts {
+			i := i
 			p, err := clus.NewCRDTPeer(ctx, h, clus.NewFaultStore(), gossip, func(c *crdt.Config) {
+				if relay && i != 1 {
+					c.TrustAll = false
+					c.TrustedPeers = []peer.ID{hosts[0].ID(), hosts[2].ID()}
+				}
 				if batching {
 					c.Batching.MaxBatchSize = 2
 					c.Batching.MaxBatchAge = 3 * time.Second
@@ -454,7 +473,11 @@ func runMulti(t *testing.T, n int, gossip bool, batching bool, evs []mev) (outco
 				return
 			}
 		}
-		mn.ConnectAllButSelf()
+		if relay {
+			setLinks(mn, peers, true)
+		} else {
+			mn.ConnectAllButSelf()
+		}
 		time.Sleep(2 * time.Second) // pubsub hello / subscription exchange
 		synctest.Wait()
 		fail := func(key, f string, a ...interface{}) { viol = append(viol, finding{key, fmt.Sprintf(f, a...)}) }
@@ -480,7 +503,10 @@ func runMulti(t *testing.T, n int, gossip bool, batching bool, evs []mev) (outco
 				synctest.Wait()
 				s := sigs()
 				all := true
-				for _, x := range s[1:] {
+				for k, x := range s[1:] {
+					if relay && k+1 == 1 {
+						continue // only replicas that trust each other are compared
+					}
 					if x != s[0] {
 						all = false
 					}
@@ -686,6 +712,7 @@ type multiHistory struct {
 	n        int
 	gossip   bool
 	batching bool
+	relay    bool
 	evs      []mev
 }
 
@@ -694,7 +721,7 @@ func (h multiHistory) String() string {
 	for _, e := range h.evs {
 		s = append(s, e.String())
 	}
-	return fmt.Sprintf("n=%d gossip=%v batching=%v %s", h.n, h.gossip, h.batching, strings.Join(s, " "))
+	return fmt.Sprintf("n=%d gossip=%v batching=%v relay=%v %s", h.n, h.gossip, h.batching, h.relay, strings.Join(s, " "))
 }
 
 func multiHistories() (out []multiHistory) {
@@ -703,14 +730,19 @@ func multiHistories() (out []multiHistory) {
 		n                int
 		gossip, batching bool
 		maxLen           int
+		relay            bool
 	}
-	confs := []conf{{2, false, false, 4}, {2, false, true, 3}}
+	confs := []conf{{2, false, false, 4, false}, {2, false, true, 3, false}, {3, false, false, 2, true}, {3, true, false, 2, true}}
 	if th {
-		confs = []conf{{2, false, false, 5}, {2, false, true, 4}, {2, true, false, 4}, {3, false, false, 4}}
+		confs = []conf{{2, false, false, 5, false}, {2, false, true, 4, false}, {2, true, false, 4, false}, {3, false, false, 4, false},
+			{3, false, false, 4, true}, {3, true, false, 3, true}}
 	}
 	for _, c := range confs {
 		var alpha []mev
 		for r := 0; r < c.n; r++ {
+			if c.relay && r == 1 {
+				continue // the relay issues nothing
+			}
 			alpha = append(alpha, mev{"pin", r, 0, 0}, mev{"unpin", r, 0, 0})
 			if r == 0 || th {
 				alpha = append(alpha, mev{"pin", r, 1, 1})
@@ -722,7 +754,7 @@ func multiHistories() (out []multiHistory) {
 			if len(prefix) > 0 {
 				last := prefix[len(prefix)-1].Kind
 				if last == "pin" || last == "unpin" {
-					out = append(out, multiHistory{c.n, c.gossip, c.batching, append([]mev{}, prefix...)})
+					out = append(out, multiHistory{c.n, c.gossip, c.batching, c.relay, append([]mev{}, prefix...)})
 				}
 			}
 			if len(prefix) == c.maxLen {
@@ -824,7 +856,7 @@ func shapeM(h multiHistory) string {
 		}
 		s = append(s, x)
 	}
-	return fmt.Sprintf("multi:n%d:g%v:b%v:%s", h.n, h.gossip, h.batching, strings.Join(s, ""))
+	return fmt.Sprintf("multi:n%d:g%v:b%v:r%v:%s", h.n, h.gossip, h.batching, h.relay, strings.Join(s, ""))
 }
 
 func TestHistories(t *testing.T) {
@@ -893,7 +925,7 @@ func TestHistories(t *testing.T) {
 		if over() {
 			break
 		}
-		outcome, viol, states, trans := runMulti(t, h.n, h.gossip, h.batching, h.evs)
+		outcome, viol, states, trans := runMulti(t, h.n, h.gossip, h.batching, h.relay, h.evs)
 		done++
 		R.Eval(sec, shapeM(h)+"|"+outcome, true)
 		R.Outcome(sec, "multi:"+outcome)
@@ -902,9 +934,13 @@ func TestHistories(t *testing.T) {
 		if i < 2*nShards {
 			R.SampleTagged("multi", 4, map[string]interface{}{"history": h.String(), "outcome": outcome})
 		}
-		viol = confirmed(viol, func() []finding { _, v, _, _ := runMulti(t, h.n, h.gossip, h.batching, h.evs); return v })
+		viol = confirmed(viol, func() []finding { _, v, _, _ := runMulti(t, h.n, h.gossip, h.batching, h.relay, h.evs); return v })
 		for _, v := range viol {
-			R.Violation(fmt.Sprintf("C02|multi|%s|n=%d,gossip=%v,batching=%v", v.key, h.n, h.gossip, h.batching), map[string]interface{}{"history": h.String(), "finding": v.detail})
+			ctxKey := fmt.Sprintf("n=%d,gossip=%v,batching=%v", h.n, h.gossip, h.batching)
+			if h.relay {
+				ctxKey += ",relay=untrusted"
+			}
+			R.Violation(fmt.Sprintf("C02|multi|%s|%s", v.key, ctxKey), map[string]interface{}{"history": h.String(), "finding": v.detail})
 		}
 	}
 	if flaky > 0 {
